@@ -111,10 +111,12 @@ fn feed_forward(t: &ItemSpec) -> Result<(), Fail> {
     s.exec = vec![t.clone()];
     s.ints = vec![2, 1];
     s.floats = vec![0.5];
+    crate::supervise::journal_program("C12", &s, 200, "step");
     let (mut st, _) = s.build();
     if let Err((label, loc, msg)) = with_machine(|m| step_program(&mut st, m, 200)) {
         return Err(Fail::new(format!("C12/generated-program-panics/{}@{}", label, loc), format!("{} | program {}", msg, t.render())));
     }
+    crate::supervise::journal_clear();
     let text = guarded(|| t.to_item().to_string()).map_err(|(l, m)| Fail::new(format!("C12/print-panics@{}", l), m))?;
     let parsed = parse_into(&StateSpec::default(), &text).map_err(|(l, m)| Fail::new(format!("C12/parse-panics@{}", l), m))?;
     let text2 = parsed.exec.iter().map(|x| x.to_item().to_string()).collect::<Vec<_>>().join(" ");
